@@ -84,7 +84,10 @@ impl Acc {
         *self.skipped.entry(reason.to_string()).or_insert(0) += 1;
     }
     pub fn outcome<T: Hash + ?Sized>(&mut self, t: &T) {
-        self.distinct.insert(hash_of(t));
+        // the set only documents non-vacuity: stop growing it at 2 M entries per worker
+        if self.distinct.len() < 2_000_000 {
+            self.distinct.insert(hash_of(t));
+        }
     }
     pub fn sample(&mut self, v: Value) {
         if self.samples.len() < 6 {
